@@ -12,24 +12,24 @@ TABLE = {
    note='trusts vlib/refcodec.py as the reading of the v5 protocol; bare top-level numbers directly after the id position are unrepresentable in the format itself and are skipped (counted in evidence)',
    tech='runtime monitoring: differential oracle (specification-derived reference codec) over generated inputs'),
  'C03': dict(cat='exploration',
-   text='online-generated operation histories against real Server/AsyncServer objects; every emit carries a unique token and its recipient multiset, read off the real engine.io socket queues with an independent decoder, must equal the rooms reference model; rooms() compared after every operation',
+   text='online-generated operation histories against real Server/AsyncServer objects; every emit carries a unique token and its recipient multiset, read off the real engine.io socket queues with an independent decoder, must equal the rooms reference model; rooms() compared after every operation; one terminating cause is the client found dead by the emit itself (back-dated ping: engine.io closes the transport with reason ping timeout from inside the send): the emit must not raise and every other addressed member receives once',
    note='sequential executions; room names truthy non-sequence hashables; operations on a client\'s own personal room are not generated (statement ambiguous there)',
    tech='runtime monitoring: history + executable reference model (rooms as sets), unique tokens, multiset equality'),
  'C05': dict(cat='exploration',
-   text='generated histories of EVENT/BINARY_EVENT packets with colliding ids from several clients and namespaces against real Server/AsyncServer; each event carries a unique token; handler invocations (who, sid, args) and ACKs (id, namespace, payload, recipient transport) are accounted for exactly; bursts with pausing handlers check strict arrival order when async_handlers is off',
+   text='generated histories of EVENT/BINARY_EVENT packets with colliding ids from several clients and namespaces against real Server/AsyncServer; each event carries a unique token; handler invocations (who, sid, args) and ACKs (id, namespace, payload, recipient transport) are accounted for exactly; bursts with pausing handlers check strict arrival order when async_handlers is off; events racing with a disconnect in progress (asyncio: enumerated await-point schedules; threaded: disconnect handler blocked in another thread): an event fed while the client is no longer connected is neither handled nor acknowledged',
    note='background handler threads/tasks are joined before judging; client frames produced by the reference codec; engine.io delivers frames in order (trusted)',
    tech='runtime monitoring: token-matched exactly-once accounting over recorded handler/ACK events'),
  'C06': dict(cat='exploration',
-   text='generated histories mixing emit-with-callback/call() with ACKs carrying correct, duplicate, never-issued, zero and foreign ids, disconnects and reconnects; an ack model (outstanding ids per session id) decides which callback may fire; call() is driven through scripted orders of ACK / timeout / disconnect / loss on virtual time',
+   text='generated histories mixing emit-with-callback/call() with ACKs carrying correct, duplicate, never-issued, zero and foreign ids, disconnects and reconnects; an ack model (outstanding ids per session id) decides which callback may fire; call() is driven through scripted orders of ACK / timeout / disconnect / loss on virtual time; duplicate-ACK race: the same ACK arrives again while the callback started by the first is still running (concurrent tasks / threads): one invocation',
    note='timeouts are observed at the wait primitive (VirtualEvent) or on a virtual asyncio clock, never wall clock; multi-recipient callbacks excluded as documented',
    tech='runtime monitoring: history + executable ack model, escape monitor, virtual time'),
  'C16': dict(cat='exploration',
-   text='generated histories of connects, save_session/get_session/session() blocks, namespace disconnects, server disconnects, transport losses and re-connects on the same or new transports against real Server/AsyncServer; every read is compared with a dict model keyed by (sid, namespace); stored values carry unique origin markers so a leak names its source',
+   text='generated histories of connects, save_session/get_session/session() blocks, namespace disconnects, server disconnects, transport losses and re-connects on the same or new transports against real Server/AsyncServer; every read is compared with a dict model keyed by (sid, namespace); stored values carry unique origin markers so a leak names its source; duplicate CONNECT for an already connected namespace leaves the session untouched',
    note='dictionaries returned by get_session() are not mutated by the harness; one known finding (session-survives-namespace-reconnect) is matched only when the leaked data comes from an earlier epoch of the same (transport, namespace)',
    tech='runtime monitoring: history + executable session model with origin markers'),
  'C04': dict(cat='exploration',
-   text='(a) generated sequential histories of CONNECT/DISCONNECT/disconnect()/transport loss/CLOSE against real Server/AsyncServer, crossed with always_connect, namespaces option, function vs class-based handlers and connect handlers that accept / return False / raise ConnectionRefusedError with 0-4 arguments; a lifecycle model per (transport, namespace) decides handler counts, answers, reasons, sid freshness and membership, with broadcast probes after every termination; (b) for the asyncio server, enumerated interleavings of concurrent terminating causes at every await point of handlers and sends',
-   note='threaded server explored sequentially here (its thread races are C20); empty and absent auth are not distinguished',
+   text='(a) generated sequential histories of CONNECT/DISCONNECT/disconnect()/transport loss/CLOSE against real Server/AsyncServer, crossed with always_connect, namespaces option, function vs class-based handlers and connect handlers that accept / return False / raise ConnectionRefusedError with 0-4 arguments; a lifecycle model per (transport, namespace) decides handler counts, answers, reasons, sid freshness and membership, with broadcast probes after every termination; (b) for the asyncio server, 23 scenarios of concurrent actors ({disconnect(), client DISCONNECT, transport loss, sibling DISCONNECT, DISCONNECT + re-CONNECT, client events}, pairs and triples) whose schedules over the await points of coroutine handlers and eio sends are enumerated by DFS (capped per scenario in the quick tier, completeness reported) plus seeded random schedules; per schedule: handler at most once per session id and exactly once iff it is no longer connected, reason among the causes in progress for that id, final broadcast reaches exactly the connected ids, racing events handled iff connected when fed',
+   note='threaded server explored sequentially here (its thread races are C20); empty and absent auth are not distinguished; one known finding (session accepted while its transport is being torn down)',
    tech='runtime monitoring: history + lifecycle reference model; controlled await-point scheduler for asyncio interleavings'),
  'C13': dict(cat='exploration',
    text='exhaustive enumeration of the 2**6 presence combinations of the six kinds of target, crossed with ordinary/reserved events, unrelated handlers, class-method presence, sync/coroutine handlers and the four classes (4704 cases); each case delivers a real packet through the direct-drive server or the scripted engine.io client and compares the callable that ran and its argument list with a precedence table written from the documentation',
@@ -40,11 +40,11 @@ TABLE = {
    note='defaults of omitted non-namespace arguments and vestigial parameters are outside the property and skipped (listed in evidence)',
    tech='runtime monitoring: recorder bound to real signatures, exhaustive argument-subset grid'),
  'C08': dict(cat='fault_enumeration',
-   text='real Client/AsyncClient on a scripted engine.io transport against a scripted server: generated histories of connect(namespaces, auth value/callable/coroutine, wait) with every acceptance/refusal/silence plan, emits on connected and unconnected namespaces, server DISCONNECT, client disconnect(), engine.io CLOSE and transport loss (also mid binary packet and with callbacks outstanding), automatic and manual reconnects; after every step namespaces/get_sid/connected are compared with the script-side model and connect/connect_error/disconnect handler invocations are accounted per namespace and connection epoch',
+   text='real Client/AsyncClient on a scripted engine.io transport against a scripted server: generated histories of connect(namespaces, auth value/callable/coroutine, wait) with every acceptance/refusal/silence plan, emits on connected and unconnected namespaces, server DISCONNECT, client disconnect(), engine.io CLOSE and transport loss (also mid binary packet and with callbacks outstanding), automatic and manual reconnects; after every step namespaces/get_sid/connected are compared with the script-side model and connect/connect_error/disconnect handler invocations are accounted per namespace and connection epoch; no-survivor probes (late ACK, first event) after every successful connect(); for the threaded client the schedule in which the read-loop thread handles the CONNECT answers before the connect() of engine.io returns',
    note='network replaced below engine.io (its state machine is the real one); two known findings pinned by the existing suite are matched by mechanism only; a connection that went through CONNECT_ERROR on / with other namespaces is abandoned unjudged after the finding is recorded',
    tech='runtime monitoring: scripted peer + script-side acceptance model, fault injection at frame boundaries'),
  'C09': dict(cat='exploration',
-   text='real Client/AsyncClient on a scripted transport: generated sequences of server EVENT/BINARY_EVENT/ACK/BINARY_ACK packets with colliding ids on several namespaces interleaved with client emits (with/without callbacks) and call(); token-matched accounting of handler invocations, ACKs sent (id, namespace, payload) and callback invocations; ack ids unique among outstanding ones; call() through scripted ACK/timeout orders on virtual waits',
+   text='real Client/AsyncClient on a scripted transport: generated sequences of server EVENT/BINARY_EVENT/ACK/BINARY_ACK packets with colliding ids on several namespaces interleaved with client emits (with/without callbacks) and call(); token-matched accounting of handler invocations, ACKs sent (id, namespace, payload) and callback invocations; ack ids unique among outstanding ones; call() through scripted ACK/timeout orders on virtual waits; duplicate-ACK race (second ACK dispatched while the first callback invocation is still running): one invocation',
    note='background handler tasks run in FIFO order at quiescent points (threaded client) or as real asyncio tasks on a virtual-time loop',
    tech='runtime monitoring: token-matched exactly-once accounting + ack model on the client side'),
  'C10': dict(cat='fault_enumeration',
@@ -56,15 +56,15 @@ TABLE = {
    note='closed engine.io sockets are removed the way engineio.Server.handle_request does; GraphSize skips types/modules/functions/loggers and shared immutable scalars; single-host managers',
    tech='runtime monitoring: fault injection at every handler invocation + leak monitor (gc reachability count) + API residue + differential probe trace'),
  'C12': dict(cat='exploration',
-   text='attacks on a real Server/AsyncServer: one offender sends 30-120 generated frames (grammar-based mutations of valid packets, raw random text/bytes, mutated msgpack maps, a quarter of them through engine.io\'s own packet decoding) interleaved with well-formed bystander events, broadcasts and pending callbacks; monitors: no handler invocation or frame for a bystander during offender input, bystander rooms/session/connection unchanged, handler arguments derivable from the offending frame, post-attack probes (bystander callbacks complete, fresh client served), per-frame allocation bound with tracemalloc under RLIMIT_AS',
+   text='attacks on a real Server/AsyncServer: one offender sends 30-120 generated frames (grammar-based mutations of valid packets, raw random text/bytes, mutated msgpack maps, a quarter of them through engine.io\'s own packet decoding) interleaved with well-formed bystander events, broadcasts and pending callbacks; monitors: no handler invocation or frame for a bystander during offender input, bystander rooms/session/connection unchanged, handler arguments derivable from the offending frame, post-attack probes (bystander callbacks complete, fresh client served), per-frame allocation bound with tracemalloc under RLIMIT_AS; CPU-time budget (3 s of process CPU time, ITIMER_VIRTUAL) around every single offender frame, with graded long-run frames aimed at super-linear scanners',
    note='engine.io contains the exceptions raised by the message callback (trusted); the offender\'s own connection may be left unusable; allocation bound 400 B per input byte + 600 kB',
    tech='runtime monitoring: grammar-based hostile workload + bystander trace/state monitors + allocation monitor (tracemalloc)'),
  'C15': dict(cat='fault_enumeration',
-   text='(a) a real PubSubManager/AsyncPubSubManager with an in-memory backend and local clients; its real listener thread/task is fed sequences of bad channel messages (undecodable bytes, pickles/JSON of non-dicts incl. strings and lists containing "method", dicts with missing/surplus/wrong-typed fields, unknown methods, own-host echoes of every method, callback messages for other hosts/unknown ids; as bytes, text or dict), a quarter combined with an injected fault (server operation raises, send raises, the listen iterator raises and is restarted); after each one a sentinel emit from another host must reach its local client exactly once and echoes/foreign callbacks must have no effect; (b) the bundled Redis backends driven with a fake redis client whose connections/subscriptions fail on schedule: every broker message yielded once, retry sleeps equal to the 1,2,4..60 schedule',
+   text='(a) a real PubSubManager/AsyncPubSubManager with an in-memory backend and local clients; its real listener thread/task is fed sequences of bad channel messages (undecodable bytes, pickles/JSON of non-dicts incl. strings and lists containing "method", dicts with missing/surplus/wrong-typed fields, unknown methods, own-host echoes of every method, callback messages for other hosts/unknown ids; as bytes, text or dict), a quarter combined with an injected fault (server operation raises, send raises, the listen iterator raises and is restarted); after each one a sentinel emit from another host must reach its local client exactly once and echoes/foreign callbacks must have no effect; (b) the bundled Redis backends driven with a fake redis client whose connections/subscriptions fail on schedule: every broker message yielded once, retry sleeps equal to the 1,2,4..60 schedule; valid callback messages whose application callback raises (Exception; CancelledError of a coroutine callback on asyncio)',
    note='injected faults are Exception subclasses; undecodable bytes start with a non-opcode byte because unpickling hostile pickle programs is outside what python-socketio can contain; redis is a harness-provided fake module',
    tech='runtime monitoring: fault injection + sentinel exactly-once oracle on the real listener loop'),
  'C07': dict(cat='exploration',
-   text='clusters of 2-4 real Server/AsyncServer objects with real PubSubManager/AsyncPubSubManager instances joined by an in-memory pickle channel (their real listener threads/tasks consume one message at a time under harness control) plus a write-only manager; generated histories of connects, room operations, emits (with skip_sid / callbacks) and disconnects issued via arbitrary hosts; immediate mode: exact recipient multiset per emit against the single-server rooms model, rooms(), disconnect handler once, callback once on the issuing host; delayed mode with random per-host lag: at-most-once, eligibility within the flight window (extended over membership operations that are themselves in flight) and exactness for emits not raced',
+   text='clusters of 2-4 real Server/AsyncServer objects with real PubSubManager/AsyncPubSubManager instances joined by an in-memory pickle channel (their real listener threads/tasks consume one message at a time under harness control) plus a write-only manager; generated histories of connects, room operations, emits (with skip_sid / callbacks) and disconnects issued via arbitrary hosts; immediate mode: exact recipient multiset per emit against the single-server rooms model, rooms(), disconnect handler once, callback once on the issuing host; delayed mode with random per-host lag: at-most-once, eligibility within the flight window (extended over membership operations that are themselves in flight) and exactness for emits not raced; acknowledgements with no, falsy and several arguments',
    note='FIFO reliable channel; delayed mode issues a membership operation only when no membership message is in flight (crossing operations are order-dependent for any implementation); callbacks only for emits addressed to the client\'s own sid',
    tech='runtime monitoring: history + single-server reference model over the union of clients, logical-time flight windows'),
  'C20': dict(cat='exploration',
@@ -72,11 +72,11 @@ TABLE = {
    note='interleavings inside a single bytecode instruction are not explored; DFS is capped per pair in the quick tier (completeness per pair is reported in evidence); locks of the manager are replaced by scheduler-aware ones',
    tech='runtime monitoring: controlled thread scheduler (systematic + randomized schedule exploration) with exactly-once / escape / residue monitors'),
  'C19': dict(cat='exploration',
-   text='real SimpleClient over a real Client over the scripted engine.io, its two Events and input buffer replaced by scheduler-aware equivalents; producer (handler) threads, consumer, network (final loss / loss with successful reconnection) and emitter actors run under a controlled scheduler: every interleaving (DFS, capped per scenario, completeness reported) at the granularity of the client\'s event/buffer operations for 11 small scenarios, seeded random schedules (60% with statement-level yield points in simple_client.py via sys.monitoring) for random larger ones; AsyncSimpleClient: every release order of the parked tasks at delivery and wake-up points on a virtual-time loop; oracles: returned sequence = arrival sequence prefix, TimeoutError only with nothing unreturned (timeouts fire only at quiescence), DisconnectedError only after a final end with every event that arrived before it returned, emit() never fails except DisconnectedError after a final end',
+   text='real SimpleClient over a real Client over the scripted engine.io, its two Events and input buffer replaced by scheduler-aware equivalents; producer (handler) threads, consumer, network (final loss / loss with successful reconnection) and emitter actors run under a controlled scheduler: every interleaving (DFS, capped per scenario, completeness reported) at the granularity of the client\'s event/buffer operations for 11 small scenarios, seeded random schedules (60% with statement-level yield points in simple_client.py via sys.monitoring) for random larger ones; AsyncSimpleClient: every release order of the parked tasks at delivery and wake-up points on a virtual-time loop; oracles: returned sequence = arrival sequence prefix, TimeoutError only with nothing unreturned (timeouts fire only at quiescence), DisconnectedError only after a final end with every event that arrived before it returned, emit() never fails except DisconnectedError after a final end; connect-time arrivals: events dispatched while the application is still inside connect() are returned by receive() in arrival order',
    note='arrival order = order of the real appends; the instant of the final end is taken at the assignment connected=False',
    tech='runtime monitoring: controlled scheduler (bounded-exhaustive + randomized), unique tokens, order/exactly-once trace oracle'),
  'C02': dict(cat='exploration',
-   text='a real Client/AsyncClient connected to a real Server/AsyncServer through a bridge in which every frame is re-encoded by the real engine.io framing (polling payload with base64 attachments, or websocket packets with raw binary), rotating over all 8 configurations {threaded, asyncio} x {default, msgpack} x {polling, websocket}; generated messages in both directions via emit, emit+callback, call() and send() with random event names, JSON+bytes payloads (tuple / None / other at top level) and handler return values; handler arguments, callback arguments and call() results compared with the argument rule; bursts of up to 50 consecutive emits checked for order',
+   text='a real Client/AsyncClient connected to a real Server/AsyncServer through a bridge in which every frame is re-encoded by the real engine.io framing (polling payload with base64 attachments, or websocket packets with raw binary), rotating over all 8 configurations {threaded, asyncio} x {default, msgpack} x {polling, websocket}; generated messages in both directions via emit, emit+callback, call() and send() with random event names, JSON+bytes payloads (tuple / None / other at top level) and handler return values; handler arguments, callback arguments and call() results compared with the argument rule; bursts of up to 50 consecutive emits checked for order; overlapping callbacks (several emits with callbacks outstanding at once on the asyncio pairing, handlers finishing out of order, a further emit meanwhile): every callback gets the value returned by its own handler exactly once',
    note='network replaced below engine.io; thread-per-message dispatch (threaded engine.io client; threaded server with async_handlers=True) defines no order and is not judged for it; 64-bit integers, finite floats, no lone surrogates',
    tech='runtime monitoring: end-to-end differential oracle (argument rule) over real client and server objects with unique sequence numbers'),
  'C14': dict(cat='exploration',
